@@ -208,7 +208,7 @@ impl Family for Encoders {
         &["C19"]
     }
     fn rule(&self) -> &'static str {
-        "name-encoding functions (go_ident, encode_ty, go_type_name_for, ref_struct_name, trait_impl_fn_name, inherent_method_fn_name composed with go_ident) over all types up to constructor depth 2 built from {unit,bool,int32,string} and struct/enum names {A, A_B, A__B, B, Tuple2, Ref, int32_x} with {tuple, array, Vec, Ref, fn} constructors, and all identifiers of length <= 3 over {a,_,1,x}; two distinct inputs with the same output are a collision; collisions between types that can coexist in one program are violations (witness = the two types); distinct = distinct inputs"
+        "name-encoding functions (go_ident, encode_ty, go_type_name_for, ref_struct_name, trait_impl_fn_name, inherent_method_fn_name composed with go_ident) over all types up to constructor depth 2 built from {unit,bool,int32,string} and struct/enum names {A, A_B, A__B, B, Tuple2, Ref, int32_x} with {tuple, array, Vec, Ref, fn} constructors, and all identifiers of length <= 3 over {a,_,1,x}; two distinct inputs with the same output are a collision, classified as structural / user-identifiers (ordinary inputs) or hostile-type-names / internal-characters (inputs a user would have to choose adversarially, or that only the compiler writes); distinct = distinct inputs"
     }
     fn cases(&self, _tier: Tier) -> Box<dyn Iterator<Item = Value> + '_> {
         Box::new(vec![json!({"fn": "go_type_name_for"}), json!({"fn": "encode_ty"}), json!({"fn": "ref_struct_name"}), json!({"fn": "go_ident"}), json!({"fn": "method-names"})].into_iter())
@@ -246,15 +246,40 @@ impl Family for Encoders {
         let mut seen: std::collections::HashMap<String, String> = std::collections::HashMap::new();
         let mut count = 0u64;
         let mut collisions = 0u64;
+        let mut per_kind: std::collections::BTreeMap<String, u64> = std::collections::BTreeMap::new();
+        // a collision is classified by what it takes to provoke it: type names a user would have to
+        // choose adversarially (containing `_`, or spelled like generated names) / identifiers with
+        // characters only the compiler writes, versus purely structural collisions between ordinary inputs
+        let hostile_names = ["A_B", "A__B", "Tuple2", "TStruct(Ref)", "int32_x", "Ptr_ref_int32_x"];
+        let kind_of = |a: &str, b: &str| -> &'static str {
+            if which == "go_ident" {
+                let plain = |x: &str| x.chars().all(|c| c.is_ascii_alphanumeric() || c == '_');
+                if !(plain(a) && plain(b)) {
+                    "internal-characters"
+                } else if a.starts_with("_goml_") || b.starts_with("_goml_") {
+                    // a user identifier spelled with the prefix the compiler reserves for escaped names
+                    "reserved-prefix"
+                } else {
+                    "user-identifiers"
+                }
+            } else if hostile_names.iter().any(|h| a.contains(h) || b.contains(h)) {
+                "hostile-type-names"
+            } else {
+                "structural"
+            }
+        };
         let mut report = |rep: &mut Report, out: String, input: String, seen: &mut std::collections::HashMap<String, String>| {
             if let Some(prev) = seen.get(&out) {
                 if *prev != input {
                     collisions += 1;
-                    if collisions <= 3 {
+                    let kind = kind_of(prev, &input);
+                    let n = per_kind.entry(kind.to_string()).or_insert(0);
+                    *n += 1;
+                    if *n <= 3 {
                         rep.findings.push(Finding {
                             property: "C19",
                             class: format!("encoder.collision.{}", which),
-                            site: format!("fn={}", which),
+                            site: format!("fn={};kind={}", which, kind),
                             detail: format!("{} and {} both encode to {}", prev, input, out),
                             replay: json!({"kind": "encoder", "fn": which, "a": prev, "b": input, "output": out}),
                         });
